@@ -64,6 +64,10 @@ theorem obs_evals {val : Nat → Rat} {c : Core} : (c.obs val).evals = c.evals +
 theorem upd_best_le {val : Nat → Rat} {c : Core} :
     (if val c.evals < c.best then c.take (val c.evals) else c.skip).best ≤ c.best := obs_best_le
 
+theorem upd_evals {val : Nat → Rat} {c : Core} :
+    (if val c.evals < c.best then c.take (val c.evals) else c.skip).evals = c.evals + 1 := by
+  split <;> rfl
+
 theorem upd_best_le_val {val : Nat → Rat} {c : Core} :
     (if val c.evals < c.best then c.take (val c.evals) else c.skip).best ≤ val c.evals := by
   unfold Core.take Core.skip; split <;> grind
@@ -79,26 +83,32 @@ theorem good_faithful {m : Bool} {f : Nat → Rat} {c : Core} (h : Good (interna
     Faithful m f (c.outcome m) := by
   refine ⟨h.idx_lt, ?_, ?_⟩
   · have := h.attained
+    have h3 := toUser_internal m (f c.bestIdx)
     simp only [Core.outcome, internal] at this ⊢
-    rw [← this]; exact toUser_internal m _
+    rw [← this, h3]
   · intro k hk
     have h1 := h.le_all k hk
-    have h2 := h.attained
     simp only [Core.outcome, internal, toUser] at *
-    cases m <;> simp [sgn] at * <;> grind
+    cases m
+    · simp only [sgn] at *
+      have : (if false = true then c.best * (if false = true then (1:Rat) else -1) ≤ f k
+          else f k ≤ c.best * (if false = true then (1:Rat) else -1)) = (f k ≤ c.best * -1) := by simp
+      rw [this]; simp at h1; grind
+    · simp only [sgn] at *
+      simp at h1 ⊢; grind
 
 theorem internal_mirror (f : Nat → Rat) : internal false f = internal true (fun k => -f k) := by
-  funext k; simp [internal, sgn]
+  funext k; simp [internal, sgn]; grind
 
 theorem outcome_mirror (c : Core) : c.outcome false = (c.outcome true).neg := by
-  simp [Core.outcome, Outcome.neg, toUser, sgn]
+  simp [Core.outcome, Outcome.neg, toUser, sgn]; grind
 
 /-! ### anneal -/
 
 def AnnealInv (val : Nat → Rat) (s : AnnealSt) : Prop := Good val s.core ∧ s.core.best ≤ s.cur
 
 theorem annealInv_init (val : Nat → Rat) : AnnealInv val (annealInit val) :=
-  ⟨good_init val, by simp [annealInit, Core.init]; exact Rat.le_refl⟩
+  ⟨good_init val, by simp [annealInit, Core.init]⟩
 
 theorem annealInv_step (val : Nat → Rat) (coin : Nat → Bool) (s : AnnealSt) (h : AnnealInv val s) :
     AnnealInv val (annealStep val coin s) := by
@@ -123,7 +133,7 @@ def LnsInv (val : Nat → Rat) (s : LnsSt) : Prop :=
   Good val s.core ∧ s.core.best ≤ s.cur ∧ s.core.evals = s.iteration + 1
 
 theorem lnsInv_init (val : Nat → Rat) : LnsInv val (lnsInit val) :=
-  ⟨good_init val, by simp [lnsInit, Core.init]; exact Rat.le_refl, by simp [lnsInit, Core.init]⟩
+  ⟨good_init val, by simp [lnsInit, Core.init], by simp [lnsInit, Core.init]⟩
 
 theorem lnsInv_step (val : Nat → Rat) (coin : Nat → Bool) (acc : Accept) (mni stopAt : Nat)
     (s : LnsSt) (h : LnsInv val s) : LnsInv val (lnsStep val coin acc mni stopAt s) := by
@@ -132,17 +142,12 @@ theorem lnsInv_step (val : Nat → Rat) (coin : Nat → Bool) (acc : Accept) (mn
   split
   · exact ⟨hg, hc, he⟩
   · simp only
-    refine ⟨?_, ?_, ?_⟩
-    · have := good_upd hg
-      simpa [decide_eq_true_eq] using this
-    · split
-      · have := @upd_best_le_val val s.core
-        simpa [decide_eq_true_eq] using this
-      · have := @upd_best_le val s.core
-        have h2 : (if decide (val s.core.evals < s.core.best) = true then s.core.take (val s.core.evals)
-            else s.core.skip).best ≤ s.core.best := by simpa [decide_eq_true_eq] using this
-        exact Rat.le_trans h2 hc
-    · by_cases hv : val s.core.evals < s.core.best <;> simp [hv, Core.take, Core.skip, he]
+    refine ⟨good_upd hg, ?_, ?_⟩
+    · dsimp only
+      by_cases ha : acc.says s.cur (val s.core.evals) (coin s.core.evals) = true
+      · rw [if_pos ha]; exact upd_best_le_val
+      · rw [if_neg ha]; exact Rat.le_trans upd_best_le hc
+    · dsimp only; rw [upd_evals, he]
 
 /-- the acceptance rule never refuses a candidate that improves on the current solution -/
 def Accept.RespectsImprovement (acc : Accept) (coin : Nat → Bool) (val : Nat → Rat) : Prop :=
@@ -162,12 +167,7 @@ theorem lnsInv_stepOrig (val : Nat → Rat) (coin : Nat → Bool) (acc : Accept)
   · exact ⟨hg, hc, he⟩
   · simp only
     split
-    · refine ⟨?_, ?_, ?_⟩
-      · have := good_upd hg
-        simpa [decide_eq_true_eq] using this
-      · have := @upd_best_le_val val s.core
-        simpa [decide_eq_true_eq] using this
-      · by_cases hv : val s.core.evals < s.core.best <;> simp [hv, Core.take, Core.skip, he]
+    · exact ⟨good_upd hg, upd_best_le_val, by rw [upd_evals, he]⟩
     · rename_i hrej
       refine ⟨good_skip hg ?_, by simpa [Core.skip] using hc, by simp [Core.skip, he]⟩
       -- a rejected candidate is not better than the current solution, hence not better than best
@@ -183,7 +183,7 @@ theorem alnsInv_step (val : Nat → Rat) (coin : Nat → Bool) (acc : Accept) (m
   · simp only
     split
     · rename_i hv
-      exact ⟨good_take hg hv, by simp [Core.take]; exact Rat.le_refl, by simp [Core.take, he]⟩
+      exact ⟨good_take hg hv, by simp [Core.take], by simp [Core.take, he]⟩
     · rename_i hv
       have hle : s.core.best ≤ val s.core.evals := by grind
       split
@@ -222,7 +222,7 @@ theorem deSweep_inv (val : Nat → Rat) : ∀ (fits : List Rat) (c : Core), PopI
     (deSweep val fits c).2.best ≤ c.best ∧
     (deSweep val fits c).2.evals = c.evals + fits.length ∧
     (deSweep val fits c).1.length = fits.length
-  | [], c, h => by simpa [deSweep] using ⟨h, Rat.le_refl⟩
+  | [], c, h => by unfold deSweep; exact ⟨h, Rat.le_refl, rfl, rfl⟩
   | f :: fs, c, ⟨hg, hf⟩ => by
     unfold deSweep
     simp only
@@ -257,7 +257,7 @@ theorem psoSweep_inv (val : Nat → Rat) : ∀ (fits : List Rat) (c : Core), Pop
     (psoSweep val fits c).2.best ≤ c.best ∧
     (psoSweep val fits c).2.evals = c.evals + fits.length ∧
     (psoSweep val fits c).1.length = fits.length
-  | [], c, h => by simpa [psoSweep] using ⟨h, Rat.le_refl⟩
+  | [], c, h => by unfold psoSweep; exact ⟨h, Rat.le_refl, rfl, rfl⟩
   | f :: fs, c, ⟨hg, hf⟩ => by
     unfold psoSweep
     simp only
@@ -296,5 +296,147 @@ theorem popInv_init (val : Nat → Rat) (n : Nat) (hn : 1 ≤ n) : PopStInv val 
   simp only [popInit, startFits, List.mem_map, List.mem_range] at hx
   obtain ⟨k, hk, rfl⟩ := hx
   exact (good_startCore val n).le_all k (by rw [startCore_evals val n hn]; exact hk)
+
+/-! ### extending a `Good` record over a block of evaluations -/
+
+theorem good_extend {val : Nat → Rat} {c : Core} (h : Good val c) (e : Nat) (he : c.evals ≤ e)
+    (hall : ∀ k, c.evals ≤ k → k < e → c.best ≤ val k) : Good val { c with evals := e } := by
+  refine ⟨Nat.lt_of_lt_of_le h.idx_lt he, h.attained, ?_⟩
+  intro k hk
+  by_cases hk' : k < c.evals
+  · exact h.le_all k hk'
+  · exact hall k (by omega) hk
+
+theorem good_replace {val : Nat → Rat} {c : Core} (h : Good val c) (b : Rat) (i e : Nat)
+    (hi : i < e) (hv : val i = b) (hb : b ≤ c.best)
+    (hall : ∀ k, c.evals ≤ k → k < e → b ≤ val k) : Good val ⟨b, i, e⟩ := by
+  refine ⟨hi, hv, ?_⟩
+  intro k hk
+  by_cases hk' : k < c.evals
+  · exact Rat.le_trans hb (h.le_all k hk')
+  · exact hall k (by omega) hk
+
+/-! ### tabu_search -/
+
+/-- `best_neighbor_obj ≤ x` (false while it still is `inf`). -/
+def bnLe (bn : Option (Rat × Nat × Nat)) (x : Rat) : Prop :=
+  match bn with
+  | none => False
+  | some (b, _, _) => b ≤ x
+
+/-- invariant of the candidate loop over evaluations `e0 … e-1` -/
+def ScanInv (val : Nat → Rat) (best : Rat) (e0 e : Nat) (bn : Option (Rat × Nat × Nat)) : Prop :=
+  (∀ k, e0 ≤ k → k < e → best ≤ val k ∨ bnLe bn (val k)) ∧
+  (∀ b i m, bn = some (b, i, m) → e0 ≤ i ∧ i < e ∧ val i = b)
+
+theorem tabuScan_spec (val : Nat → Rat) (best : Rat) (tset : List Nat) (e0 : Nat) :
+    ∀ (ms : List Nat) (e : Nat) (bn : Option (Rat × Nat × Nat)), e0 ≤ e → ScanInv val best e0 e bn →
+      (tabuScan val best tset ms e bn).1 = e + ms.length ∧
+      ScanInv val best e0 (tabuScan val best tset ms e bn).1 (tabuScan val best tset ms e bn).2
+  | [], e, bn, _, h => by simpa [tabuScan] using h
+  | m :: ms, e, bn, he, ⟨h1, h2⟩ => by
+    unfold tabuScan
+    simp only
+    have key : ∀ bn', ScanInv val best e0 (e + 1) bn' →
+        (tabuScan val best tset ms (e + 1) bn').1 = e + (m :: ms).length ∧
+        ScanInv val best e0 (tabuScan val best tset ms (e + 1) bn').1
+          (tabuScan val best tset ms (e + 1) bn').2 := by
+      intro bn' hinv
+      obtain ⟨a, b⟩ := tabuScan_spec val best tset e0 ms (e + 1) bn' (by omega) hinv
+      exact ⟨by rw [a]; simp; omega, b⟩
+    split
+    · rename_i hskip
+      apply key
+      refine ⟨?_, fun b i m' hb => by obtain ⟨x, y, z⟩ := h2 b i m' hb; exact ⟨x, by omega, z⟩⟩
+      intro k hk0 hk
+      by_cases hk' : k < e
+      · exact h1 k hk0 hk'
+      · have : k = e := by omega
+        subst this; exact Or.inl hskip.2
+    · cases bn with
+      | none =>
+        simp only
+        apply key
+        refine ⟨?_, ?_⟩
+        · intro k hk0 hk
+          by_cases hk' : k < e
+          · rcases h1 k hk0 hk' with h | h
+            · exact Or.inl h
+            · exact absurd h (by simp [bnLe])
+          · have : k = e := by omega
+            subst this; exact Or.inr (by simp [bnLe])
+        · intro b i m' hb
+          simp only [Option.some.injEq, Prod.mk.injEq] at hb
+          obtain ⟨rfl, rfl, rfl⟩ := hb
+          exact ⟨he, by omega, rfl⟩
+      | some t =>
+        obtain ⟨b, i, mv⟩ := t
+        simp only
+        split
+        · rename_i hlt
+          apply key
+          refine ⟨?_, ?_⟩
+          · intro k hk0 hk
+            by_cases hk' : k < e
+            · rcases h1 k hk0 hk' with h | h
+              · exact Or.inl h
+              · right; simp only [bnLe] at h ⊢; grind
+            · have : k = e := by omega
+              subst this; exact Or.inr (by simp [bnLe])
+          · intro b' i' m' hb
+            simp only [Option.some.injEq, Prod.mk.injEq] at hb
+            obtain ⟨rfl, rfl, rfl⟩ := hb
+            exact ⟨he, by omega, rfl⟩
+        · rename_i hge
+          apply key
+          refine ⟨?_, fun b' i' m' hb => by obtain ⟨x, y, z⟩ := h2 b' i' m' hb; exact ⟨x, by omega, z⟩⟩
+          intro k hk0 hk
+          by_cases hk' : k < e
+          · exact h1 k hk0 hk'
+          · have : k = e := by omega
+            subst this; right; simp only [bnLe]; grind
+
+theorem tabu_good_step (val : Nat → Rat) (cooldown mni stopAt : Nat) (s : TabuSt) (ms : List Nat)
+    (h : Good val s.core) : Good val (tabuStep val cooldown mni stopAt s ms).core := by
+  unfold tabuStep
+  split
+  · exact h
+  · simp only
+    split
+    · exact h
+    · obtain ⟨he, hinv⟩ := tabuScan_spec val s.core.best s.tabuSet s.core.evals ms s.core.evals none
+        (Nat.le_refl _) ⟨fun k a b => by omega, fun b i m hb => by simp at hb⟩
+      split
+      · rename_i e heq
+        rw [heq] at he hinv
+        simp only at he hinv
+        refine good_extend h e (by omega) ?_
+        intro k hk0 hk
+        rcases hinv.1 k hk0 hk with h' | h'
+        · exact h'
+        · exact absurd h' (by simp [bnLe])
+      · rename_i e b i mv heq
+        rw [heq] at he hinv
+        simp only at he hinv
+        obtain ⟨hi0, hie, hvi⟩ := hinv.2 b i mv rfl
+        simp only
+        by_cases hb : b < s.core.best
+        · simp only [hb, decide_true, if_true]
+          refine good_replace h b i e hie hvi (by grind) ?_
+          intro k hk0 hk
+          rcases hinv.1 k hk0 hk with h' | h'
+          · grind
+          · simpa [bnLe] using h'
+        · simp only [hb, decide_false]
+          refine good_extend h e (by omega) ?_
+          intro k hk0 hk
+          rcases hinv.1 k hk0 hk with h' | h'
+          · exact h'
+          · simp only [bnLe] at h'; grind
+
+theorem foldl_inv {σ α : Type} (P : σ → Prop) (f : σ → α → σ) (h : ∀ s a, P s → P (f s a)) :
+    ∀ (l : List α) (s : σ), P s → P (l.foldl f s)
+  | [], _, hs => hs
+  | a :: l, s, hs => foldl_inv P f h l (f s a) (h s a hs)
 
 end Solvor.Search
